@@ -537,3 +537,83 @@ Print Assumptions init_listener.
 Print Assumptions init_error_typed.
 Print Assumptions init_close_flag.
 Print Assumptions init_hint_regardless.
+
+(* ------------------------------------------------------------------ malformed keepalive hints *)
+Lemma float_char_digit : forall c, is_digit c = true -> float_char c = true.
+Proof. intros c H. unfold float_char. rewrite H. reflexivity. Qed.
+
+Lemma all_digits_float : forall s, all_digits s = true -> forallb float_char s = true.
+Proof.
+  induction s as [|c r IH]; intros H; [reflexivity|].
+  cbn [all_digits] in H. apply andb_true_iff in H. destruct H as [Hc Hr].
+  cbn [forallb]. rewrite (float_char_digit _ Hc), (IH Hr). reflexivity.
+Qed.
+
+Lemma parse_unsigned_dec_float_chars : forall s q,
+  parse_unsigned_dec s = Some q -> s <> [] /\ forallb float_char s = true.
+Proof.
+  intros s q H. unfold parse_unsigned_dec in H.
+  pose proof (join_split "."%char s) as J.
+  destruct (split_on "."%char s) as [|ip [|fp [|x xs]]] eqn:E; try discriminate.
+  - rewrite join_with_singleton in J. subst ip.
+    destruct (negb (is_nil s) && all_digits s) eqn:C; [|discriminate].
+    apply andb_true_iff in C. destruct C as [Cn Cd]. split.
+    + destruct s; [discriminate|discriminate].
+    + exact (all_digits_float _ Cd).
+  - rewrite join_with_cons2, join_with_singleton in J. cbn [app] in J.
+    destruct (negb (is_nil ip && is_nil fp) && all_digits ip && all_digits fp) eqn:C; [|discriminate].
+    apply andb_true_iff in C. destruct C as [C Cf]. apply andb_true_iff in C. destruct C as [Cn Ci].
+    subst s. split.
+    + destruct ip; discriminate.
+    + rewrite forallb_app. rewrite (all_digits_float _ Ci). cbn [forallb andb].
+      rewrite (all_digits_float _ Cf). reflexivity.
+Qed.
+
+Lemma float_chars_no_witness : forall s, forallb float_char s = true ->
+  existsb (fun c => (code c <? 128)%N && negb (float_char c)) s = false.
+Proof.
+  induction s as [|x xs IH]; intros H; [reflexivity|].
+  cbn [forallb] in H. apply andb_true_iff in H. destruct H as [Hx Hxs].
+  cbn [existsb]. rewrite Hx. cbn [negb]. rewrite andb_false_r. cbn [orb]. exact (IH Hxs).
+Qed.
+
+Lemma float_chars_not_surely : forall s, s <> [] -> forallb float_char s = true -> surely_not_float s = false.
+Proof.
+  intros s Hne H. unfold surely_not_float. destruct s as [|c r]; [congruence|]. cbn [is_nil orb].
+  exact (float_chars_no_witness _ H).
+Qed.
+
+(* a hint that float() certainly rejects is discarded ... *)
+Theorem malformed_hint_discarded : forall s,
+  surely_not_float s = true -> parse_hint (Some (Some s)) = HMalformed.
+Proof.
+  intros s H. unfold parse_hint. destruct s as [|c r]; [reflexivity|]. rewrite H.
+  assert (K : forall t q, parse_unsigned_dec t = Some q -> forallb float_char t = true /\ t <> [])
+    by (intros t q Ht; destruct (parse_unsigned_dec_float_chars _ _ Ht); split; assumption).
+  destruct (Ascii.eqb c c_minus) eqn:Em.
+  - destruct (parse_unsigned_dec r) as [q|] eqn:P; [|reflexivity]. exfalso.
+    destruct (K _ _ P) as [Hf _]. apply Ascii.eqb_eq in Em. subst c.
+    assert (X : surely_not_float (c_minus :: r) = false)
+      by (apply float_chars_not_surely; [discriminate|cbn [forallb]; rewrite Hf; reflexivity]).
+    congruence.
+  - destruct (Ascii.eqb c c_plus) eqn:Ep.
+    + destruct (parse_unsigned_dec r) as [q|] eqn:P; [|reflexivity]. exfalso.
+      destruct (K _ _ P) as [Hf _]. apply Ascii.eqb_eq in Ep. subst c.
+      assert (X : surely_not_float (c_plus :: r) = false)
+        by (apply float_chars_not_surely; [discriminate|cbn [forallb]; rewrite Hf; reflexivity]).
+      congruence.
+    + destruct (parse_unsigned_dec (c :: r)) as [q|] eqn:P; [|reflexivity]. exfalso.
+      destruct (K _ _ P) as [Hf Hn].
+      pose proof (float_chars_not_surely _ Hn Hf). congruence.
+Qed.
+
+(* ... and the interval in force afterwards is the one of an init request without a hint *)
+Theorem malformed_hint_as_absent : forall configured r,
+  ir_hint r = HMalformed -> ka_after_init configured r = Some (ka_after configured None).
+Proof. intros configured r H. unfold ka_after_init. rewrite H. reflexivity. Qed.
+
+Example malformed_hint_examples :
+  parse_hint (Some (Some (bs "abc"))) = HMalformed /\ parse_hint (Some (Some [])) = HMalformed /\
+  parse_hint (Some (Some (bs "0x10"))) = HMalformed /\ parse_hint (Some (Some (bs "1,5"))) = HMalformed /\
+  parse_hint (Some (Some (bs "1500"))) = HValue 1500 /\ parse_hint (Some (Some (bs "2e3"))) = HUnmodelled.
+Proof. vm_compute. repeat split; reflexivity. Qed.
